@@ -1,4 +1,6 @@
 import TSSVerif.Model.Orch
+import TSSVerif.Gen.Stmts
+import TSSVerif.Model.StmtsExpected
 /-!
 # C12 — sessions leave no residue and do not interfere with one another
 
@@ -244,5 +246,12 @@ theorem derived_topic_collision_witness :
 
 example : (run {} [.signEnter 1 5, .signPrepare 1 5, .regSync2 1 7]).t.sync 7 = some 1 := by decide
 example : dispatchMPC (run {} [.signEnter 1 5, .signPrepare 1 5]).t 5 = some 1 := by decide
+
+
+/-- **The source the model was transcribed from is the current source**: the statements of `KeyGen`, `runDKG`, `Sign`, `prepareSigning`, `initializeHandlers`, `initializeSyncForSigning`, `registerWhileActive`, `ensureDKGNotRunning`, `runSigningProtocol`, regenerated from
+`/repo` on this run, are the committed ones (logging left out). A change of any of them — harmless or not — fails here
+first; the differential and monitored runs of this property are then the search for an input on which it fails. -/
+theorem source_as_modelled : TSSVerif.Gen.Stmts.orch = TSSVerif.Model.StmtsExpected.orch := by
+  decide +kernel
 
 end TSSVerif.Props.C12
